@@ -4,6 +4,7 @@ Unknown or ill-formed requests answer `bad-op`; the model never defaults.
 -/
 import DnaModel.Model.Seq
 import DnaModel.Model.Loc
+import DnaModel.Model.Pattern
 
 open Dna
 
@@ -115,6 +116,28 @@ def handleSeq : List String → Option String
       | none => "none" | some (x, y) => s!"{x} {y}")
   | _ => none
 
+/-- pattern arguments: `dna <IUPAC>` or `rep <n> <k>`; returns the pattern and the remaining tokens -/
+def pattern? : List String → Option (Pattern × List String)
+  | "dna" :: p :: rest => some (.dna (seqOf p), rest)
+  | "rep" :: n :: k :: rest => do pure (.repeated (← nat? n) (← nat? k), rest)
+  | _ => none
+
+def locsStr (ls : List Loc) : String := if ls.isEmpty then "-" else joinWith " ; " (ls.map locStr)
+
+def handlePat : List String → Option String
+  | "pat.find" :: rest => do
+    let (p, rest) ← pattern? rest
+    match rest with
+    | [s, a, b, c] =>
+      let loc : Loc := ⟨← int? a, ← int? b, ← int? c⟩
+      pure (match p.findMatches (seqOf s) loc with | none => "KeyError" | some ls => locsStr ls)
+    | [s] => pure (locsStr ((p.findInString (seqOf s)).map (fun (st : Nat) => ⟨(st : Int), (st : Int) + p.size, 1⟩)))
+    | _ => none
+  | "pat.info" :: rest => do
+    let (p, _) ← pattern? rest
+    pure s!"{p.size} {p.isPalindromic}"
+  | _ => none
+
 def handle (toks : List String) : String :=
   match toks with
   | [] => "bad-op"
@@ -122,6 +145,7 @@ def handle (toks : List String) : String :=
     let r :=
       if cmd.startsWith "loc." then handleLoc toks
       else if cmd.startsWith "seq." then handleSeq toks
+      else if cmd.startsWith "pat." then handlePat toks
       else none
     r.getD "bad-op"
 
